@@ -11,6 +11,7 @@ CONSTANTS
   AllowPublish = TRUE
   SplitTrack = FALSE
   AsCoded = {"flip-trackers-only"}
+  Replay = TRUE
 VIEW View
 INVARIANTS TypeOK VersionConsistent C25_Epoch
 PROPERTIES C25_Frames
